@@ -22,7 +22,7 @@ MANIFEST = dict(
          'From outside the dead process the parent checks: every statement whose log call had returned before the action (for a signal: those of the '
          'thread hit; for stop/exit: of every thread, finished ones included) is in the file once and in thread order, already at the moment stop() '
          'returns; the handler\'s notice lines follow them; the wait status is the original signal (crash signals) or exit code 0 (SIGINT/SIGTERM, stop, '
-         'exit, return); statements logged after (or during) a stop/start cycle are written too; no child hangs. The quick tier covers 6 signals x 8 '
+         'exit, return); statements logged after (or during) a stop/start cycle are written too; no child hangs. The signal rows are also run with wait_for_queues_to_empty_before_exit off and the backend asleep (the signal clause is unconditional). The quick tier covers 6 signals x 8 '
          'points x 2 clocks plus the stop/exit/return, cycle and real-fault rows; the thorough tier every boundary of a 40-statement program. '
          'Not covered: statements whose log call had not returned, other threads\' statements at a signal, SIGKILL and unhandled signals.',
     design='5 C07', technique='child-process fault enumeration with an out-of-process issue log + direct property monitor (Coq model theorems when present)',
@@ -42,16 +42,16 @@ CRASH = ('SEGV', 'ABRT', 'FPE', 'ILL')
 SLEEP_US = 20000          # the "sleeping" backend
 BIG_PAD = 30000; BIG_SLEEP_US = 200000     # 'big backlog' rows
 WAIT_MS = 70              # a 'w' pause: the sleeping backend has drained everything and sleeps again
-KEYS = ('clock', 'sh', 'sleep_us', 'flush_ms', 'sigto', 'pad', 'wait_ms', 'noise', 'actor', 'act', 'script')
+KEYS = ('clock', 'sh', 'sleep_us', 'flush_ms', 'sigto', 'pad', 'wait_ms', 'noise', 'wq', 'actor', 'act', 'script')
 
 
 # ---------------------------------------------------------------------------------------- cases
-def mkcase(script, actor, act, clock='sys', sh=1, sleep_us=0, noise=0, pad=0, sigto=10, wait_ms=WAIT_MS, flush_ms=None):
+def mkcase(script, actor, act, clock='sys', sh=1, sleep_us=0, noise=0, pad=0, sigto=10, wait_ms=WAIT_MS, flush_ms=None, wq=1):
     if flush_ms is None:
         # library default (200 ms) except in the 'pause before the action' rows, where the sink is flushed whenever the
         # backend is idle so that everything really is in the file when the action starts
         flush_ms = 0 if script and script[-1] == 'w' else -1
-    d = dict(clock=clock, sh=sh, sleep_us=sleep_us, flush_ms=flush_ms, sigto=sigto, pad=pad, wait_ms=wait_ms, noise=noise, actor=actor, act=act,
+    d = dict(clock=clock, sh=sh, sleep_us=sleep_us, flush_ms=flush_ms, sigto=sigto, pad=pad, wait_ms=wait_ms, noise=noise, wq=wq, actor=actor, act=act,
              script=','.join(script))
     return ' '.join('%s=%s' % (k, d[k]) for k in KEYS)
 
@@ -174,6 +174,12 @@ def gen_quick():
             for ci, clock in enumerate(('sys', 'tsc')):
                 sl, idle, noise = backend_variant(si + pi + ci * 2, sg in CRASH)
                 cases.append(mkcase(with_idle(toks, idle), actor, 'raise:' + sg, clock=clock, sleep_us=sl, noise=noise))
+    # the signal clause does not depend on wait_for_queues_to_empty_before_exit: every signal with the option off and the
+    # backend asleep (the statements are still queued when the signal arrives)
+    for si, sg in enumerate(SIGS):
+        for pi in (2, 5):
+            toks, actor = pts[pi]
+            cases.append(mkcase(toks, actor, 'raise:' + sg, clock=('sys', 'tsc')[(si + pi) % 2], sleep_us=BIG_SLEEP_US if pi == 5 else SLEEP_US, wq=0))
     # real faults
     for fi, f in enumerate(FAULT_SIG):
         for ci, clock in enumerate(('sys', 'tsc')):
